@@ -35,6 +35,19 @@ pub fn det_dump(path: &str, order_seed: u64, mode: &str) {
     for (name, val) in c04::answers(&db, &texts, c04::QUERIES) {
         println!("## {}\n{}", name, val);
     }
+    // what the LSP server shows next to the text: container, counter and reference hints of every note, as returned
+    {
+        use lsp_types::{InlayHintLabel, InlayHintParams, Range, TextDocumentIdentifier};
+        let st: HashMap<String, String> = lib.iter().cloned().collect();
+        let server = crate::act::server_with(&st, "", true);
+        let mut keys: Vec<&String> = st.keys().collect();
+        keys.sort();
+        for k in keys {
+            let hints = server.handle_inlay_hints(InlayHintParams { text_document: TextDocumentIdentifier { uri: crate::act::uri(k) }, range: Range::default(), work_done_progress_params: Default::default() });
+            let labels: Vec<String> = hints.iter().map(|h| format!("{}:{}", h.position.line, match &h.label { InlayHintLabel::String(s) => s.clone(), _ => "?".to_string() })).collect();
+            println!("## hints {}\n{}", k, labels.join(" | "));
+        }
+    }
     let mut exp: Vec<(String, String)> = db.graph().export().into_iter().collect();
     exp.sort();
     println!("## export\n{:?}", exp);
